@@ -13,6 +13,7 @@ import AnySyncModel.StreamPool.Model
   streams <tags>                       Streams(tags...)
   rel <sid>                            the parked MsgSend of the stream returns
   gate <sid> <0|1>                     switch the remote between healthy and gated
+  cblock <sid> <0|1>                   the remote's Close() parks (1) / returns (0)
   rclose <sid> / cancel <sid>          read loop ends / peer context cancelled
   drel <task>                          the parked peer getter of the task returns
 
@@ -56,7 +57,7 @@ def showStream (prev : Pool) (s : Stream) : Option String :=
   if s.removed then
     if prevRemoved prev s.id then none
     else some s!"{s.id}:X:{s.peer}:{showNats s.tags}:{nd}"
-  else some s!"{s.id}:L:{showOpt s.inflight}:{nd}"
+  else some s!"{s.id}:{if s.closed then "K" else "L"}:{showOpt s.inflight}:{nd}"
 
 def showStreams (prev cur : Pool) : String :=
   let l := cur.objs.filterMap (showStream prev)
@@ -74,6 +75,13 @@ def finish (st : St) (p : Pool) (res : Res) : St × String :=
   let q := p.settle p.settleFuel
   ({ st with pool := q }, dump st.pool q st.ntags (showRes res))
 
+/-- macro result `p1` is what the state continues with; the same call executed as snapshot + single
+`callWrite` steps (`p2`) must give the same observation, otherwise the answer is marked `SPLIT` -/
+def finish2 (st : St) (p1 p2 : Pool) (res : Res) : St × String :=
+  let r1 := finish st p1 res
+  let r2 := finish st p2 res
+  if r1.2 = r2.2 then r1 else (r1.1, r1.2 ++ " SPLIT")
+
 def step (st : St) (line : String) : St × String :=
   let p := st.pool
   match tokens line with
@@ -90,11 +98,11 @@ def step (st : St) (line : String) : St × String :=
   | ["addnopeer"] => finish st p .errNoPeer
   | ["bcast", m, tags] =>
     match m.toNat?, natList? tags with
-    | some m, some tags => finish st (p.broadcast m tags) .ok
+    | some m, some tags => finish2 st (p.broadcastNow m tags) (p.broadcast m tags) .ok
     | _, _ => (st, "bad-op")
   | ["byid", m, peers] =>
     match m.toNat?, natList? peers with
-    | some m, some peers => let r := p.sendById m peers; finish st r.1 r.2
+    | some m, some peers => let r := p.sendByIdNow m peers; finish2 st r.1 (p.sendById m peers).1 r.2
     | _, _ => (st, "bad-op")
   | ["send", tid, m, ge, peers] =>
     match tid.toNat?, m.toNat?, bool? ge, natList? peers with
@@ -136,6 +144,10 @@ def step (st : St) (line : String) : St × String :=
   | ["gate", sid, b] =>
     match sid.toNat?, bool? b with
     | some sid, some b => let r := p.setGated sid b; finish st r.1 r.2
+    | _, _ => (st, "bad-op")
+  | ["cblock", sid, b] =>
+    match sid.toNat?, bool? b with
+    | some sid, some b => let r := p.setCloseBlocks sid b; finish st r.1 r.2
     | _, _ => (st, "bad-op")
   | ["rclose", sid] =>
     match sid.toNat? with
